@@ -138,9 +138,19 @@ def _drop_exit(got, exp, x, w, acc_):
 
 
 def check_det(acc_, cfg, runner):
+    _check_det(acc_, cfg, runner, False)
+    if cfg[6] != 0 and not cfg[7]:
+        _check_det(acc_, cfg, runner, True)
+
+
+def _check_det(acc_, cfg, runner, use_ep):
     L, gk, ek, sync, ac, n, entry, nested = cfg
     limit = n * L
     prog = loop_program(L, gk, ek, sync, ac, limit=limit, nested=nested)
+    if use_ep:
+        # mid-body entry also through with_entrypoint(), derived from a graph object that was run from the loop head before
+        prog["entry"] = [f"b{entry + 1}"]
+        prog["preuse"] = _inputs(L, ac, 0)
     p = T.set_async(prog, runner == "async")
     ins = _inputs(L, ac, entry)
     x = execute(p, ins, runner=runner, h=H(), error_handling="continue", max_iterations=400)
@@ -155,7 +165,7 @@ def check_det(acc_, cfg, runner):
         exp_vals["mark"] = ("m", exp_vals["x0"])
     if sync == "signal-after":
         exp_vals["saved"] = ("s", exp_vals["x0"])
-    w = {"kind": "det", "cfg": list(cfg), "runner": runner, "program": prog, "inputs": ins}
+    w = {"kind": "det", "cfg": list(cfg), "runner": runner, "program": prog, "inputs": ins, "with_entrypoint": use_ep}
     if x.exc is not None or x.result is None or x.result.status.value != "completed":
         acc_.violation({"symptom": "loop-did-not-complete", "sync": sync}, w, f"loop {cfg}: status {x.status} error={x.exc or getattr(x.result, 'error', None)!r}")
         return
@@ -228,6 +238,8 @@ def check_maxiter(acc_, cfg, runner):
         prog["nodes"][0]["params"] = ["x0", "aux"]
         prog["nodes"].append(T.fn("pre", ["seed"], ["aux"], defaults={"seed": 0}, behav={"py": "('aux', seed)"}))
         prog["entry"] = ["b1"]
+        # the entry-point graph is derived from a graph OBJECT that was already inspected and run in full
+        prog["preuse"] = {"x0": 0}
     p = T.set_async(prog, runner == "async")
     big = 60
     ins0 = {"x0": 0, "aux": ["given", "aux"]} if entry else {"x0": 0}
